@@ -11,6 +11,7 @@ import (
 
 	"github.com/zenon-network/go-zenon/chain/nom"
 
+	"verifmc/internal/ops"
 	"verifmc/internal/vnode"
 	"verifmc/internal/xs"
 )
@@ -39,6 +40,14 @@ func RacePass(dir string, iters int) int {
 				accountTuple(nd, a)
 				poolTuple(nd, a)
 				momentumTuple(nd, a)
+				// first accesses to accounts without a pool entry (lazily created per-account state) and whole-pool listings,
+				// as RPC readers do
+				for _, u := range ops.Users[2:10] {
+					accountTuple(nd, u.Address)
+					nd.Chain.GetUncommittedAccountBlocksByAddress(u.Address)
+				}
+				nd.Chain.GetAllUncommittedAccountBlocks()
+				nd.Chain.GetPatch(f.addrB, f.confB)
 			}
 		}
 	}
